@@ -74,7 +74,8 @@ Targets(i) == TargetKinds(body, i)
 ModesAt(i) ==
     LET o == body[i].o IN
     {"before", "after"}
-    \cup (IF o \in {"op", "nop"} THEN {"alternate", "empty_alternate"} ELSE {})
+    \* replacing/removing the function's final end is accepted but must have no effect (C15)
+    \cup (IF o \in {"op", "nop"} \/ i = Len(body) THEN {"alternate", "empty_alternate"} ELSE {})
     \cup (IF o \in {"block", "loop", "if", "else"} THEN {"block_entry", "block_exit", "block_alt"} ELSE {})
     \* removing an `if` without consuming its condition is a misuse (invalid by the caller's doing)
     \cup (IF o \in {"block", "loop", "else"} THEN {"empty_block_alt"} ELSE {})
